@@ -1046,6 +1046,9 @@ func ruleNONEMPTY(w *World, r *Report, pkgs ...string) {
 				if len(apps) == 0 || !webFromEmpty(phi, map[ssa.Value]bool{}) {
 					continue
 				}
+				if !loopCarried(phi) {
+					continue // a merge of alternatives, not a collection that grows in a loop
+				}
 				key := fmt.Sprintf("%s:const-index#%d", shortName(fn), k)
 				k++
 				n++
@@ -1086,32 +1089,33 @@ func ruleNONEMPTY(w *World, r *Report, pkgs ...string) {
 	r.floor("NONEMPTY", "constant indexes into append-built slices", n, 1)
 }
 
-// webFromEmpty: every non-append source of the phi/append web is nil or an empty make.
+// webFromEmpty: can the phi/append web be empty? Its leaves (values that are neither
+// phis nor appends) are the slices the collection starts from: nil, an empty make, or a
+// value of unknown length (a call result, a parameter, a load) may be empty; only a make
+// with a positive constant length cannot. `append(x, e...)` is judged by x.
 func webFromEmpty(v ssa.Value, seen map[ssa.Value]bool) bool {
 	if seen[v] {
-		return true
+		return false
 	}
 	seen[v] = true
 	switch x := v.(type) {
 	case *ssa.Phi:
 		for _, e := range x.Edges {
-			if !webFromEmpty(e, seen) {
-				return false
+			if webFromEmpty(e, seen) {
+				return true
 			}
 		}
-		return true
-	case *ssa.Const:
-		return x.IsNil()
+		return false
 	case *ssa.Call:
 		if c := isBuiltinCall(x, "append"); c != nil {
 			return webFromEmpty(c.Call.Args[0], seen)
 		}
 	case *ssa.MakeSlice:
-		if c, ok := constInt(x.Len); ok && c == 0 {
-			return true
+		if c, ok := constInt(x.Len); ok && c > 0 {
+			return false
 		}
 	}
-	return false
+	return true
 }
 
 // ---------------------------------------------------------------------------
@@ -1570,4 +1574,38 @@ func ruleZEROEXP(w *World, r *Report) {
 		}
 	}
 	r.floor("ZEROEXP", "zero tests of the exponent in Pow", n, 1)
+}
+
+// loopCarried: one of the phi's edges is (transitively, through phis and appends) the phi itself.
+func loopCarried(phi *ssa.Phi) bool {
+	seen := map[ssa.Value]bool{}
+	var reach func(v ssa.Value) bool
+	reach = func(v ssa.Value) bool {
+		if v == ssa.Value(phi) {
+			return true
+		}
+		if seen[v] {
+			return false
+		}
+		seen[v] = true
+		switch x := v.(type) {
+		case *ssa.Phi:
+			for _, e := range x.Edges {
+				if reach(e) {
+					return true
+				}
+			}
+		case *ssa.Call:
+			if c := isBuiltinCall(x, "append"); c != nil {
+				return reach(c.Call.Args[0])
+			}
+		}
+		return false
+	}
+	for _, e := range phi.Edges {
+		if reach(e) {
+			return true
+		}
+	}
+	return false
 }
